@@ -4,7 +4,8 @@
      "reset"  point (ms), within (ms after the reset returned at which the snapshot was taken),
               endpoints_open  = endpoints of abandoned connections / discoveries still open,
               tasks_alive     = LOC / SPA / FACADE tasks created before the reset still running
-     "exit"   point, endpoints_open, tasks_alive          after leaving the manager context
+     "exit"   point, returned, endpoints_open, tasks_alive   after leaving the manager context (returned: __aexit__
+                                                              came back within 900 virtual seconds)
      "late"   observer_calls, events_delivered            caused by datagrams / timers of abandoned
               connections after the reset returned (must be 0)
      "cycles" n, max_endpoints, max_tasks, bound_endpoints, bound_tasks
@@ -15,7 +16,8 @@ Recs == ndJsonDeserialize(IOEnv.GV_RECS)
 Verdict(r) ==
   CASE r.kind = "reset" -> IF Len(r.endpoints_open) > 0 THEN "endpoint-of-abandoned-connection-left-open"
                            ELSE IF Len(r.tasks_alive) > 0 THEN "task-of-abandoned-connection-still-alive" ELSE "ok"
-    [] r.kind = "exit" -> IF Len(r.tasks_alive) > 0 THEN "task-alive-after-exit"
+    [] r.kind = "exit" -> IF ~r.returned THEN "context-exit-does-not-return"
+                          ELSE IF Len(r.tasks_alive) > 0 THEN "task-alive-after-exit"
                           ELSE IF Len(r.endpoints_open) > 0 THEN "endpoint-open-after-exit" ELSE "ok"
     [] r.kind = "late" -> IF r.observer_calls > 0 \/ r.events_delivered > 0 THEN "late-effect-of-abandoned-connection" ELSE "ok"
     [] r.kind = "cycles" -> IF r.max_endpoints > r.bound_endpoints \/ r.max_tasks > r.bound_tasks THEN "resources-grow-with-reconnect-cycles" ELSE "ok"
